@@ -72,3 +72,38 @@ package astcomp
 //@   assert_before_call emitInstr#2: typeis($instr, ir.JumpIf) && asType($instr, ir.JumpIf).Cond == testReg && !asType($instr, ir.JumpIf).Not && asType($instr, ir.JumpIf).Label == endLbl
 //@   assert_before_call emitInstr#4: typeis($instr, ir.Jump) && ghost(pushed) == old(ghost(pushed)) + 2 && ghost(popped) == old(ghost(popped)) + 1
 //@   ensures ghost(pushed) == old(ghost(pushed)) + 2 && ghost(popped) == old(ghost(popped)) + 2
+
+// ---------------------------------------------------------------------------
+// C01: every expression of an expression list is evaluated
+// ---------------------------------------------------------------------------
+// In `local a = e1, e2` and `a, b = e1, e2, e3` the surplus expressions are
+// still evaluated, for their side effects (manual 3.3.3); only their values are
+// thrown away.  ghost(compiled) counts the expressions handed to the expression
+// compiler: compileExpList compiles each expression of the list exactly once,
+// whatever the number of destinations.  (The expression compilers themselves are
+// assumed to compile what they are given.)
+//@ func (*compiler).compileExpInto
+//@   trusted
+//@   modifies everything()
+//@   exits any
+//@   ghost compiled += 1
+
+//@ func (*compiler).compileTailExp
+//@   trusted
+//@   modifies everything()
+//@   exits any
+//@   ghost compiled += 1
+
+//@ func (*compiler).compileExpList
+//@   prop C01
+//@   arith int
+//@   norte
+//@   nocover
+//@   requires c != nil
+//@   modifies everything()
+//@   exits any
+//@   ensures ghost(compiled) == old(ghost(compiled)) + len(exps)
+//@   loop 1: invariant ghost(compiled) == old(ghost(compiled)) + rangeindex + 1 && commonCount <= len(exps) && commonCount <= len(dstRegs) && (doTailExp ==> commonCount == len(exps) - 1 && len(dstRegs) > len(exps)) && (!doTailExp ==> commonCount == len(exps) || commonCount == len(dstRegs))
+//@   loop 2: invariant ghost(compiled) == old(ghost(compiled)) + i && commonCount <= i && (doTailExp ==> i == commonCount && commonCount == len(exps) - 1) && (!doTailExp ==> (i <= len(exps) || i == commonCount) && commonCount <= len(exps))
+//@   loop 3: invariant ghost(compiled) == old(ghost(compiled)) + ite(doTailExp, len(exps) - 1, len(exps))
+//@   loop 4: invariant ghost(compiled) == old(ghost(compiled)) + len(exps) && !doTailExp
